@@ -406,7 +406,10 @@ Section Fmt.
       end.
   End Layouts.
 
-  (* format_expr_impl *)
+  (* format_expr_impl.  Since 65d1ae7 the Rust function is memoised per format_expr call
+     (LAYOUT_CACHE keyed by node address, max_cols, indent); the model is the uncached function
+     format_expr_uncached — the cache is sound exactly because the layout is a function of
+     (node, max_cols, indent) only, which is what the model is by construction. *)
   Fixpoint fmtd (e : expr) (i : nat) {struct e} : doc := impl_doc fmtd e i.
 End Fmt.
 
@@ -548,17 +551,10 @@ Section Drivers.
     | _ => Some (join_spacing (map (lib_stmt max_columns) p))
     end.
 
-  (* blots/src/main.rs:246-295: only the first inner pair of a statement is looked at *)
+  (* blots/src/main.rs --format loop (since 9255709: the statement's second pair, its
+     end-of-line comment, is appended as "  " + comment; every statement is followed by "\n";
+     blank lines between statements are not kept) *)
   Definition cli_stmt (s : stmt) : doc :=
-    match s with
-    | St (SExpr e) _ _ _ => format_expr e None ++ [Nl]
-    | St (SOut e) _ _ _ => format_expr (EOutput e) None ++ [Nl]
-    | St (SComment c) _ _ _ => [Comment c; Nl]
-    end.
-  Definition format_cli (p : list stmt) : doc := flat_map cli_stmt p.
-
-  (* the CLI loop with fixes/C09-cli-trailing-comment.diff applied *)
-  Definition cli_stmt_fixed (s : stmt) : doc :=
     match s with
     | St k eol _ _ =>
         (match k with
@@ -567,7 +563,7 @@ Section Drivers.
          | SComment c => [Comment c]
          end) ++ (match eol with Some c => [Code "  "; Comment c] | None => [] end) ++ [Nl]
     end.
-  Definition format_cli_fixed (p : list stmt) : doc := flat_map cli_stmt_fixed p.
+  Definition format_cli (p : list stmt) : doc := flat_map cli_stmt p.
 End Drivers.
 
 (* ------------------------------------------------------------------ comment re-attachment
@@ -652,8 +648,9 @@ Section Attach.
   Definition attach_do (pairs : list dpair) (ret : A) : list (commented A) * commented A :=
     let (stmts, pending) := attach_do_loop pairs [] [] in (stmts, Cm pending ret None).
 
-  (* the pairs the do_block rule yields on format_do_block_multiline's layout, for statements
-     whose trailing comment (if any) the grammar accepts *)
+  (* the pairs the do_block rule yields on format_do_block_multiline's layout (since b1bc7c1
+     do_statement = (expression | comment) ~ (WHITESPACE* ~ comment)?, so the "  // c" the
+     formatter prints after a statement is that statement's comment) *)
   Definition do_layout_pairs (stmts : list (commented A)) (ret : commented A) : list dpair :=
     flat_map (fun c => map DComment (cleading c) ++ [DStmt (cnode c) (ctrailing c)]) stmts ++
     map DComment (cleading ret).
@@ -797,7 +794,6 @@ Section Run.
   Definition run_lib (width : option nat) (p : list stmt) : option doc :=
     format_lib e2s np record_key_impl width p.
   Definition run_cli (p : list stmt) : doc := format_cli e2s np record_key_impl p.
-  Definition run_cli_fixed (p : list stmt) : doc := format_cli_fixed e2s np record_key_impl p.
 End Run.
 
 (* "<hex text> <shown comments> <comments under opaquely printed expressions>" *)
